@@ -49,7 +49,17 @@ fn main() {
     }
     let mut out = unsafe { <std::fs::File as std::os::fd::FromRawFd>::from_raw_fd(out_fd) };
     run::install_panic_hook();
-    let args: Vec<String> = std::env::args().collect();
+    let mut args: Vec<String> = std::env::args().collect();
+    // the client must not learn anything from the real working directory: fix it (file arguments
+    // are made absolute first)
+    for a in args.iter_mut().skip(1) {
+        if a.ends_with(".json") && !a.starts_with('/') {
+            if let Ok(cwd) = std::env::current_dir() {
+                *a = cwd.join(&*a).to_string_lossy().to_string();
+            }
+        }
+    }
+    let _ = std::env::set_current_dir("/");
     let verif_dir = std::env::var("VERIF_DIR").unwrap_or_else(|_| "/verif".to_string());
     let seed: u64 = std::env::var("VERIF_SEED").ok().and_then(|s| s.parse().ok()).unwrap_or(0);
     let code = match args.get(1).map(|s| s.as_str()) {
